@@ -154,7 +154,18 @@ def decide(prog, rows, agg, what, known_switches=(), extra_check=None, policy=No
     if d is None and extra_check is not None:
         d = extra_check(real, mtrace, m)
     if d is None:
-        return "held", {"program": real["text"], "rows": rows[:4], "trace_head": [(t["pln"], t["matched"]) for t in mtrace[:4]]}
+        return "held", {
+            "program": real["text"],
+            "rows": rows[:4],
+            "trace_head": [(t["pln"], t["matched"]) for t in mtrace[:4]],
+            "fired_lines": [t["pln"] for t in mtrace if t.get("fired")],
+            "advanced_over": sum(1 for ev in real["rec"].lines if ev.get("adv0", 0) > 0 and ev["considered"]),
+            "lines_scanned": sum(1 for t in mtrace if t["considered"]),
+            "lines_matched": sum(1 for t in mtrace if t["matched"]),
+            "variables_written": len(mtrace[-1]["vars"]) if mtrace else 0,
+            "verdict_changes": sum(1 for v in real["rec"].valid if v[2] is False),
+            "errors_handled": len(real["errors"]),
+        }
     witness["divergence"] = d
     # attribute to a known mechanism only if emulating it reproduces the observation exactly
     cand = [k for k in m.reached if k in known_switches]
